@@ -14,7 +14,7 @@ git stash list >/dev/null
 if ! git diff --quiet -- . ':!seed_*' 2>/dev/null; then :; fi
 git diff > /tmp/seed-cur-$ID.diff
 # demo test files: untracked *_test.go outside seed_demo
-DEMOFILES=$(git status --porcelain | awk '$1=="??"{print $2}' | grep '_test.go$' | grep -v '^seed_demo/')
+DEMOFILES=$(git status --porcelain -uall | awk '$1=="??"{print $2}' | grep '_test.go$' | grep -v '^seed_demo/')
 if [ -z "$DEMOFILES" ]; then
   # copy from seed_demo following the repo-like layout or README hints
   for f in $(find seed_demo -name '*_test.go'); do
@@ -27,7 +27,7 @@ if [ -z "$DEMOFILES" ]; then
       mkdir -p "$(dirname "$rel")"; cp "$f" "$rel" && log "copied $f -> $rel"
     fi
   done
-  DEMOFILES=$(git status --porcelain | awk '$1=="??"{print $2}' | grep '_test.go$' | grep -v '^seed_demo/')
+  DEMOFILES=$(git status --porcelain -uall | awk '$1=="??"{print $2}' | grep '_test.go$' | grep -v '^seed_demo/')
 fi
 log "demo files: $DEMOFILES"
 log "demo cmd: $DEMO"
